@@ -2109,6 +2109,11 @@ func (p *parser) parseCallOrConversion(fun ast.Expr, isCmd bool) *ast.CallExpr {
 	var noParenEnd token.Pos
 	if isCmd {
 		noParenEnd = p.pos
+		if ellipsis.IsValid() { // end of the last argument, not the start of whatever follows it
+			noParenEnd = ellipsis + 3
+		} else if n := len(list); n > 0 && !rparen.IsValid() {
+			noParenEnd = list[n-1].End()
+		}
 	} else if rparen == token.NoPos {
 		rparen = p.expectClosing(token.RPAREN, "argument list")
 	}
